@@ -25,6 +25,11 @@ theorem C08_decoder_ignores_insignificant_content (n : Node) :
     decodeQuery (Spec.XmlNoise.clean Lemmas.CaldavNoise.pc n) = decodeQuery n :=
   Lemmas.CaldavNoise.decodeQuery_clean n
 
+/-- the same for multiget documents -/
+theorem C08_multiget_decoder_ignores_insignificant_content (unescape : String → Option String) (n : Node) :
+    decodeMultiGet unescape (Spec.XmlNoise.clean Lemmas.CaldavNoise.pc n) = decodeMultiGet unescape n :=
+  Lemmas.CaldavNoise.decodeMultiGet_clean unescape n
+
 /-- …hence every document that is RFC-conformant once that content is set aside (pretty-printed, commented) reaches the
     backend as the query it denotes -/
 theorem C08_rfc_document_reaches_backend_lexical (n : Node) (q : Query)
